@@ -190,7 +190,7 @@ class ModuleEnv:
             if isinstance(f.value, ast.Name) and f.value.id in ('cls', 'self') and f.value.id in st.env:
                 key = f'{eng.cls_name}.{f.attr}'
                 recv = st.env[f.value.id]
-                if key in self.reg and not (isinstance(recv, VRec) and f.attr in recv.fields):
+                if key in self.reg and not (isinstance(recv, VRec) and f.attr in recv.fields) and ast.unparse(f) not in eng.c.get('calls', {}):
                     return self.apply_contract(key, node, eng, st, recv=recv if f.value.id == 'self' else None)
             base = eng.ev(f.value, st)
             return self.method_call(base, f.attr, node, eng, st)
@@ -285,12 +285,12 @@ class ModuleEnv:
             key = f'{base.py[1]}.{name}'
         elif isinstance(base, VRec):
             key = f'{base.name}.{name}'
-        if key and key in self.reg:
-            return self.apply_contract(key, node, eng, st, recv=base if isinstance(base, VRec) else None, args=args)
         local = eng.c.get('calls', {})
         src = ast.unparse(node.func)
-        if src in local:
+        if src in local:      # a call model stated in the contract under verification takes precedence over registry contracts
             return self.apply_contract(src, node, eng, st, contract=local[src], args=args)
+        if key and key in self.reg:
+            return self.apply_contract(key, node, eng, st, recv=base if isinstance(base, VRec) else None, args=args)
         if isinstance(base, VUnknown) or (isinstance(base, VConst) and isinstance(base.py, tuple)):
             return VUnknown(f'call of .{name}')
         raise Unsupported(f'method {name} on {base!r}')
